@@ -85,6 +85,67 @@ type Transport struct {
 	FailNext error
 
 	WriteDeadlines int
+
+	// Sink, when set, receives every successful Write/Writev/Flush as well (the real buffered
+	// transport wrapper over a recording connection); SinkErr is the first broken expectation:
+	// the connection must hold a prefix of Stream at all times and all of it after a Flush.
+	Sink     Sink
+	SinkConn *Conn
+	SinkErr  string
+}
+
+// Sink is the write side of a transport.
+type Sink interface {
+	Write(p []byte) (int, error)
+	Writev(buffs net.Buffers) (int64, error)
+	Flush() error
+}
+
+// Conn is a recording net.Conn (writes only; reads block forever).
+type Conn struct {
+	mu     sync.Mutex
+	Stream []byte
+	Writes int
+}
+
+func (c *Conn) Write(p []byte) (int, error) {
+	c.mu.Lock()
+	c.Stream = append(c.Stream, p...)
+	c.Writes++
+	c.mu.Unlock()
+	return len(p), nil
+}
+func (c *Conn) Read(p []byte) (int, error)         { select {} }
+func (c *Conn) Close() error                       { return nil }
+func (c *Conn) LocalAddr() net.Addr                { return addr("conn-local") }
+func (c *Conn) RemoteAddr() net.Addr               { return addr("conn-remote") }
+func (c *Conn) SetDeadline(time.Time) error        { return nil }
+func (c *Conn) SetReadDeadline(time.Time) error    { return nil }
+func (c *Conn) SetWriteDeadline(time.Time) error   { return nil }
+
+// sinkCheck runs under t.mu after an operation was forwarded to the sink.
+func (t *Transport) sinkCheck(op string, err error, flushed bool) {
+	if t.SinkErr != "" {
+		return
+	}
+	if err != nil {
+		t.SinkErr = fmt.Sprintf("%s through the buffered wrapper failed: %v", op, err)
+		return
+	}
+	t.SinkConn.mu.Lock()
+	got := append([]byte(nil), t.SinkConn.Stream...)
+	t.SinkConn.mu.Unlock()
+	if len(got) > len(t.Stream) || string(got) != string(t.Stream[:len(got)]) {
+		off := 0
+		for off < len(got) && off < len(t.Stream) && got[off] == t.Stream[off] {
+			off++
+		}
+		t.SinkErr = fmt.Sprintf("after %s the connection holds bytes that are not a prefix of the written stream (first difference at offset %d of %d)", op, off, len(t.Stream))
+		return
+	}
+	if flushed && len(got) != len(t.Stream) {
+		t.SinkErr = fmt.Sprintf("after Flush the connection holds %d of %d written bytes", len(got), len(t.Stream))
+	}
 }
 
 // NewTransport creates a transport gated by g (g may be nil).
@@ -136,6 +197,10 @@ func (t *Transport) writeLocked(kind, proc string, p []byte) (int, error) {
 	t.Stream = append(t.Stream, cp...)
 	t.Records = append(t.Records, cp)
 	t.op(kind, proc, len(p), nil)
+	if t.Sink != nil {
+		_, err := t.Sink.Write(p)
+		t.sinkCheck("Write", err, false)
+	}
 	return len(p), nil
 }
 
@@ -165,8 +230,16 @@ func (t *Transport) Writev(buffs net.Buffers) (int64, error) {
 		t.op("writev", proc, 0, ErrClosedTransport)
 		return 0, &NetErr{ErrClosedTransport.Error()}
 	}
+	var fwd net.Buffers
+	if t.Sink != nil {
+		fwd = append(net.Buffers(nil), buffs...)
+	}
 	n, err := buffs.WriteTo(recorder{t, proc})
 	t.op("writev", proc, int(n), err)
+	if t.Sink != nil {
+		_, serr := t.Sink.Writev(fwd)
+		t.sinkCheck("Writev", serr, false)
+	}
 	return n, err
 }
 
@@ -185,6 +258,9 @@ func (t *Transport) Flush() error {
 	}
 	t.FlushedTo = len(t.Stream)
 	t.op("flush", proc, 0, nil)
+	if t.Sink != nil {
+		t.sinkCheck("Flush", t.Sink.Flush(), true)
+	}
 	return nil
 }
 
@@ -262,6 +338,13 @@ func (t *Transport) Read(p []byte) (int, error) {
 		case <-t.readMore:
 		}
 	}
+}
+
+// SinkError returns the first broken expectation about the sink ("" = none).
+func (t *Transport) SinkError() string {
+	t.mu.Lock()
+	defer t.mu.Unlock()
+	return t.SinkErr
 }
 
 // IsClosed reports whether Close was called.
